@@ -48,3 +48,7 @@ def action_obligation(name):
 
 for _n in WRITE_SET:
     obligation('C02', f'C02-{_n} authorisation and write-set of {_n}::execute')(action_obligation(_n))
+
+
+from obligations.c18 import ics20_obligation
+obligation('C02', 'C02-Ics20Withdrawal authorisation and write-set of Ics20Withdrawal::execute')(ics20_obligation('C02'))
